@@ -68,7 +68,9 @@ SpkL2Advs == [
   X3 |-> L2A("X3", {}, "", {"ifX"}),
   X4 |-> L2A("X4", {"pl"}, "", {"ifA"}),
   X5 |-> L2A("X5", {}, "b", {}),
-  X6 |-> L2A("X6", {}, "a", {"ifA", "ifX"})
+  X6 |-> L2A("X6", {}, "a", {"ifA", "ifX"}),
+  \* all interfaces, but only on the nodes labelled b
+  X9 |-> L2A("X9", {}, "b", {})
 ]
 
 (* BGP advertisement: pools, node selector, peers ({} = all peers),         *)
@@ -90,7 +92,11 @@ SpkBgpAdvs == [
   A11 |-> BA("A11", {"pl"}, "", {"p2"}, 32, 128, 200, {"c2"}),
   A12 |-> BA("A12", {"pl"}, "", {"p1"}, 32, 128, 100, {"L1"}),
   A13 |-> BA("A13", {"ph"}, "", {"p1"}, 24, 64, 10, {}),
-  A14 |-> BA("A14", {"ph"}, "a", {"p2"}, 24, 64, 20, {"c1", "L1"})
+  A14 |-> BA("A14", {"ph"}, "a", {"p2"}, 24, 64, 20, {"c1", "L1"}),
+  \* IPv4 and IPv6 aggregation lengths that cut the field at different places
+  A15 |-> BA("A15", {"pl"}, "", {}, 24, 66, 30, {"c1"}),
+  A16 |-> BA("A16", {"pl"}, "", {"p2"}, 26, 63, 40, {}),
+  A17 |-> BA("A17", {}, "b", {}, 24, 64, 10, {"c2"})
 ]
 
 PR(name, nsel) == [name |-> name, nsel |-> nsel]
@@ -106,6 +112,7 @@ SpkLayouts == [
   B5 |-> Lay({"pl", "ph"}, {}, {"A10", "A11", "A12", "A13", "A14"}, {PR("p1", ""), PR("p2", "")}),
   B6 |-> Lay({"pl", "ph"}, {}, {"A10", "A11"}, {PR("p1", ""), PR("p2", "a")}),
   B7 |-> Lay({"pl", "ph"}, {}, {"A10", "A11"}, {PR("p1", "a"), PR("p2", "")}),
+  B8 |-> Lay({"pl", "ph"}, {}, {"A15", "A16"}, {PR("p1", ""), PR("p2", "")}),
   BZ |-> Lay({"pz"}, {}, {"A6"}, {PR("p1", "")}),
   \* layer 2 and BGP
   C1 |-> Lay({"pw"}, {"X1"}, {"A7"}, {PR("p1", "")}),
@@ -115,6 +122,12 @@ SpkLayouts == [
   C5 |-> Lay({"pw"}, {"X6"}, {"A7"}, {PR("p2", "")}),
   C6 |-> Lay({"pw"}, {"X3"}, {"A7"}, {PR("p1", "")}),
   C7 |-> Lay({"pw"}, {"X1"}, {"A7"}, {PR("p1", "a"), PR("p2", "")}),
+  \* one pool carries both protocols, with independent node selection
+  C8 |-> Lay({"pw"}, {"X1"}, {"A8"}, {PR("p1", "")}),
+  C9 |-> Lay({"pw"}, {"X1"}, {"A17"}, {PR("p1", "")}),
+  C10 |-> Lay({"pw"}, {"X2"}, {"A7"}, {PR("p1", "")}),
+  \* all interfaces for the OTHER nodes, named interfaces for the nodes labelled a
+  C11 |-> Lay({"pw"}, {"X9", "X2"}, {}, {}),
   \* layer 2 only
   D1 |-> Lay({"pw"}, {"X1"}, {}, {}),
   D2 |-> Lay({"pw"}, {"X2"}, {}, {}),
